@@ -47,6 +47,32 @@ def run(ctx):
     args = [blk for blk in rec.blocks if blk.term.kind == 'call' and not blk.cleanup and any(n in ('redis::Pipeline::arg', 'redis::Cmd::arg') for n in blk.term.callee_names())]
     oka = len(args) == 1 and fa and any(s[0] == 'call' and s[2] == fa[0].idx for s in sources(an, args[0].term.args[1], deep=True)) and \
         (len(cmds) == 2 and an.dominates(cmds[1].idx, args[0].idx))
+    # ... the whole value: a narrowing cast on the way (`as u8`) makes the values repeat
+    narrow = []
+    if args and fa:
+        seen_l = set(); work_ = [args[0].term.args[1]]
+        while work_ and len(seen_l) < 200:
+            o_ = work_.pop()
+            if o_.kind == 'const' or o_.place.local in seen_l:
+                continue
+            seen_l.add(o_.place.local)
+            for d_ in an.defs(o_.place.local):
+                if d_[0] == 'stmt':
+                    if d_[3].rv.kind == 'cast':
+                        src_ty = rec.locals[d_[3].rv.ops[0].place.local]['ty'] if d_[3].rv.ops[0].kind != 'const' else ''
+                        dst_ty = rec.locals[o_.place.local]['ty']
+                        order = ['u8', 'i8', 'u16', 'i16', 'u32', 'i32', 'u64', 'i64', 'usize', 'isize', 'u128', 'i128']
+                        if src_ty in order and dst_ty in order and order.index(dst_ty) // 2 < order.index(src_ty) // 2 and not (src_ty in ('usize', 'isize') and dst_ty in ('u64', 'i64')):
+                            narrow.append((d_[3].line, '%s as %s' % (src_ty, dst_ty)))
+                    work_ += [x_ for x_ in d_[3].rv.ops if x_.kind != 'const']
+                    if d_[3].rv.kind in ('ref', 'copyderef'):
+                        from .facts import Operand as _Op
+                        work_.append(_Op({'c': {'l': d_[3].rv.place.local, 'pr': [], 'own': []}}))
+                else:
+                    if d_[1] != fa[0].idx:
+                        work_ += [x_ for x_ in d_[3].args if x_.kind != 'const']
+    ctx.ob('R17.1', 'the PING value is the whole counter value (no narrowing on the way)', not narrow, ctx.where(rec, narrow[0][0]) if narrow else ctx.where(rec),
+           'narrowing cast %s between the counter and the PING argument: values repeat, a stale echo can match' % [n_[1] for n_ in narrow] if narrow else '', construct='recycle:ping-narrowed')
     ctx.ob('R17.1', 'PING carries that fresh value', bool(oka), ctx.where(rec, args[0].term.line) if args else ctx.where(rec), '%d arg() calls' % len(args), construct='recycle:ping-arg')
     q = [blk for blk in rec.blocks if blk.term.kind == 'call' and not blk.cleanup and any(n in ('redis::Pipeline::query_async', 'redis::Cmd::query_async') for n in blk.term.callee_names())]
     okq = len(q) == 1 and any(s[0] == 'upvar' and s[1].startswith('conn') for s in sources(an, q[0].term.args[1], deep=True))
